@@ -1,13 +1,18 @@
 #!/bin/bash
 # usage: trymut.sh <patch> <prop> [<prop> ...]   — apply a patch to /repo, run quick checks, restore /repo
+# (evidence files written while /repo is patched are NOT evidence: they are put back afterwards)
 set -u
 patch=$1; shift
 cd /repo || exit 2
 if [ -n "$(git status --porcelain)" ]; then echo "/repo not clean"; exit 2; fi
 git apply "$patch" || { echo "patch does not apply"; exit 2; }
 cd /verif
+keep=$(mktemp -d /tmp/trymut.XXXXXX)
 for p in "$@"; do
+  [ -f evidence/$p.json ] && cp evidence/$p.json $keep/$p.json
   /venv/bin/python harness/check.py "$p" --tier quick 2>&1 | grep -v "^WARNING conda" | tail -3
-  echo "   -> exit $?"
+  echo "   -> exit ${PIPESTATUS[0]}"
+  [ -f $keep/$p.json ] && cp $keep/$p.json evidence/$p.json
 done
+rm -rf $keep
 cd /repo && git checkout -- . && git status --porcelain
